@@ -481,6 +481,14 @@ def check_action(case, ctx):
                   "typical_h_gb_complex")
         ctx.close(elt.calc_effective_lindbladian_mat_hermitian_basis_from_hamiltonian(h, c_sys.basis()), ref_hs_gb(shape, fn), tol,
                   "typical_h_gb")
+        # the general routine documents "an orthonormal matrix basis": the (non-Hermitian) computational bases, row- and
+        # column-major, are such bases
+        from quara.objects.matrix_basis import get_comp_basis
+
+        ctx.close(elt.calc_effective_lindbladian_mat_from_hamiltonian(h, get_comp_basis(d)), ref_hs_cb(shape, fn), tol,
+                  "typical_h_to_comp_basis:row_major")
+        ctx.close(elt.calc_effective_lindbladian_mat_from_hamiltonian(h, get_comp_basis(d, mode="column_major")),
+                  rm.hs_from_map(rm.comp_basis(d, "column_major"), fn), tol, "typical_h_to_comp_basis:column_major")
         ctx.nontrivial(float(np.max(np.abs(h.imag))) > 1e-9)
         return
 
